@@ -161,7 +161,7 @@ class Engine(EngineBase):
                 # empty destination document: the roll-back uses the in-memory backup
                 dpd = {}
                 spd = spd or {"k1": 1}
-        if P == "C15" and opts["deep"] and rng.random() < 0.7:
+        if P in ("C15", "C14") and opts["deep"] and rng.random() < 0.7:
             # deep only matters for differing files that look equal: make sure one exists
             both = sorted(set(src_jobs) & set(dst_jobs))
             if both:
@@ -689,6 +689,11 @@ class Run:
                                what + " (content differs, size and mtime equal, deep=True)",
                                "C15:deep-not-honoured:" + ("project-level" if sc["entry"] in
                                                            ("Project.sync", "sync_projects") else "job-level"))
+                        # ... and the strategy's verdict was not followed either (C14 quantifies over
+                        # conflicts with equal size and equal mtime as well)
+                        self.v("C14", "C14:file-verdict-not-followed",
+                               what + f" (strategy {o['strategy']}, deep=True, equal size and mtime)",
+                               "C14:file-verdict-not-followed:deep-equal-size-mtime")
                     else:
                         self.v("C14", "C14:file-verdict-not-followed",
                                what + f" (strategy {o['strategy']}, src mtime {sf[1]}, dst mtime {df[1]})",
